@@ -5,12 +5,16 @@ small name pools, with 0..4 token-level mutations; (plan) the example plans of t
 under test with 1..4 token-level mutations; (soup) token soups from the verb / connective /
 comparison vocabulary inside a minimal valid skeleton; (adv) adversarial structures: cyclic
 and dangling in/over/under/next/first/aux/clone references, duplicate names, taskers of the
-wrong kind. Every script is only *built* (Skedder.build -> Builder.build), never run.
+wrong kind; (atheris, thorough tier) a coverage-guided byte-level libFuzzer campaign over ioflo.base
+with a FloScript token dictionary (vp.fuzz.fuzz_flo). Every script is only *built*
+(Skedder.build -> Builder.build), never run.
 
 Oracle: the build returns True or False, or raises ParseError / ResolveError / ValueError;
 anything else escaping is a violation, and so is a build that uses more than 5 s of CPU time
 (typical build: 2 ms). Collect-then-classify: signature = exception type @ innermost
-ioflo file:function, each signature is shrunk (lines, then tokens) and reported once.
+ioflo file:function (for a hang: the deepest ioflo frame that stayed on the stack between two
+samples, i.e. the function that owns the loop), each signature is shrunk (lines, then tokens)
+and reported once.
 """
 import contextlib
 import glob
@@ -264,16 +268,21 @@ def _shrink(acc, tier, budget):
 def plan(tier):
     mix = ["gen", "plan", "adv", "soup", "gen", "adv", "plan", "gen"]
     if tier == "quick":
-        return [{"kind": k, "i": i, "n": 1500} for i, k in enumerate(mix)]
+        return [{"kind": k, "i": i, "n": 3000} for i, k in enumerate(mix)]
     shards = []
-    for rep in range(4):
-        shards += [{"kind": k, "i": rep * 8 + i, "n": 8000} for i, k in enumerate(mix)]
+    shards += [{"kind": "atheris", "i": 100 + j, "runs": 40000} for j in range(2)]   # long poles first
+    for rep in range(6):
+        shards += [{"kind": k, "i": rep * 8 + i, "n": 8500} for i, k in enumerate(mix)]
     return shards
 
 
 def work(shard, seed, tier):
     acc = Acc()
     kind = shard["kind"]
+    if kind == "atheris":       # coverage-guided byte-level campaign (thorough tier), same oracle inside the target
+        from vp.fuzz.fuzz_flo import run_campaign
+        run_campaign(acc, shard["runs"], seed * 1000 + shard["i"])
+        return acc
     budget = Budget(240 if tier == "quick" else 1500)
     strat = st.tuples(st.just(kind), st.sampled_from([0, 0, 1, 1, 2, 3, 4]),
                       st.sampled_from([0.0, 0.03, 0.1, 0.3]), st.integers(0, 2 ** 62))
